@@ -86,6 +86,20 @@ def final : List Item → Bool
   | .close :: rest => rest.isEmpty
   | .el :: rest => final rest
 
+/-! the table `harness facts` obtains by running real sessions negotiated with no tee, a working
+tee, a failing `TeeOut` writer, computed from the model -/
+def resName : Res → String
+  | .ok => "ok" | .closedOut => "closedout" | .ioErr => "ioerr" | .na => "na"
+
+def probeWays : List (String × List Op) :=
+  [("Close", [.close]), ("Close+Close", [.close, .close]), ("Serve+peerClose", [.peerClose])]
+
+def probeTable (fb : Bool) : List (String × List (String × String)) :=
+  [("none", false), ("ok", false), ("failing", true)].map fun t =>
+    (t.1, probeWays.map fun w =>
+      let r := run fb (fun _ => t.2) 0 init w.2
+      (w.1, s!"tags={r.1.attempts} res={String.intercalate "," (r.2.map resName)} closed={r.1.outClosed}"))
+
 end Tee
 
 /-! ## write deadlines -/
@@ -145,6 +159,19 @@ def run (joined : Bool) : St → List Op → St × List Res
     let r := step joined s op
     let rest := run joined r.1 ops
     (rest.1, r.2 :: rest.2)
+
+/-! the probe table: one transmit call per entry point and context fate, then `Close` -/
+def resName : Res → String
+  | .ok => "ok" | .closedOut => "closedout" | .failed => "failed"
+
+def probeRow (joined : Bool) : List (String × String) :=
+  [("alive", Fate.alive), ("over", .over), ("cancelled", .cancelled)].map fun f =>
+    let a := step joined init (.tx f.2)
+    let r := run joined init [.tx f.2, .close]
+    (f.1, s!"res={resName a.2} pairs={joined} cleared={!a.1.wdPast} tags={r.1.tags}")
+
+def probeTable (joined : Bool) : List (String × List (String × String)) :=
+  ["Send", "Encode", "EncodeElement", "SendIQ", "SendElement"].map fun e => (e, probeRow joined)
 
 end WdHist
 
